@@ -9,7 +9,7 @@ import z3
 from . import ops, extract
 from .ops import exc, is_number
 from .values import (
-    Ref, ListE, DequeE, SetE, DictE, ObjE, NdE, SymListE, FuncVal, BoundMethod, ClassVal, BuiltinClass,
+    Ref, ListE, DequeE, SetE, NumSetE, DictE, ObjE, NdE, SymListE, FuncVal, BoundMethod, ClassVal, BuiltinClass,
     ModuleVal, Builtin, ExcVal, Exc, Opaque, SliceVal, SuperVal, Unknown, Unsupported, EngineError,
     is_z3, z3val, coerce_pair, as_arith, is_intlike, is_reallike, is_boollike, to_frac,
 )
@@ -102,6 +102,11 @@ def getattr(I, st, v, name):
             yield st, dict_method(I, st, v, name)
             return
         if e.kind == "set":
+            yield st, set_method(I, st, v, name)
+            return
+        if e.kind == "numset":
+            if name != "add":
+                raise Unsupported("set of symbolic numbers: method " + name)
             yield st, set_method(I, st, v, name)
             return
         if e.kind == "nd":
@@ -584,7 +589,41 @@ def sorted_values(I, st, items, key=None, reverse=False):
     if all(obj_lt(I, cur, k) for k in keys):
         yield from sort_objects(I, cur, items, keys, reverse)
         return
+    if key is None and reverse in (False, True) and all(_plain_number(k) for k in keys):
+        yield from sort_symbolic_numbers(I, cur, items, bool(reverse))
+        return
     raise Unsupported("sorting symbolic keys")
+
+
+def sort_symbolic_numbers(I, st, items, reverse):
+    """sorted() of a concrete-length sequence of numbers, some symbolic: stable insertion sort, one path per feasible
+    order.  x goes behind every element that does not have to follow it (<= x ascending, >= x descending) - ties keep
+    their input order, as in Python."""
+    I.trust("sorted", "A3: sorted/list.sort is the stable ordering permutation w.r.t. <")
+    work = [(st, [])]
+    for pos in range(len(items)):
+        nxt = []
+        for s, acc in work:
+            x = items[pos]
+            m = len(acc)
+            for p in range(m + 1):
+                conds = []
+                if p > 0:
+                    a, b, _sym = coerce_pair(acc[p - 1], x)
+                    conds.append((a >= b) if reverse else (a <= b))
+                if p < m:
+                    a, b, _sym = coerce_pair(x, acc[p])
+                    conds.append((a > b) if reverse else (a < b))
+                c = _m().conj(conds)
+                if not I.feasible(s, c):
+                    continue
+                s2 = s.fork()
+                if is_z3(c):
+                    s2.pc.append(c)
+                nxt.append((s2, acc[:p] + [x] + acc[p:]))
+        work = nxt
+    for s, acc in work:
+        yield s, acc
 
 
 def obj_lt(I, st, k):
@@ -662,6 +701,34 @@ def dict_method(I, st, ref, name):
     return bi("dict." + name, tbl[name])
 
 
+def _plain_number(v):
+    return (isinstance(v, (int, Fraction)) and not isinstance(v, bool)) or (is_z3(v) and (z3.is_int(v) or z3.is_real(v)))
+
+
+def numset_add(I, st, ref, x):
+    """set.add(x) where x or an element already in the set is a symbolic number: x is a member iff it EQUALS an element
+    (numbers hash by value), so fork on x == e for each element e; on the remaining path x differs from all and is added."""
+    e = st.get(ref)
+    if not _plain_number(x) or not all(_plain_number(i) for i in e.items):
+        raise Unsupported("set mixing symbolic numbers with other keys")
+    if e.kind == "set":
+        st.store[ref.id] = NumSetE(e.items)
+    n = len(e.items)
+    pending = [st]
+    for idx in range(n):
+        nxt = []
+        for s in pending:
+            for s2, t in I.branch(s, _m().eq_values(I, s, s.get(ref).items[idx], x)):
+                if t:
+                    yield s2, None
+                else:
+                    nxt.append(s2)
+        pending = nxt
+    for s in pending:
+        s.get(ref).items.append(x)
+        yield s, None
+
+
 def _dict_fromkeys(I, st, a, k):
     keys = I.iterate(a[0], st)
     v = a[1] if len(a) > 1 else None
@@ -673,6 +740,9 @@ def set_method(I, st, ref, name):
         return st.get(ref).items
 
     def add(I, st, a, k):
+        if (is_z3(a[0]) and _plain_number(a[0])) or st.get(ref).kind == "numset":
+            yield from numset_add(I, st, ref, a[0])
+            return
         x = I.hashable(a[0])
         if x not in S(st):
             S(st).append(x)
@@ -992,7 +1062,7 @@ def make_builtins(I):
             yield st, v.length(I, st)
         elif isinstance(v, Ref):
             e = st.get(v)
-            if e.kind in ("list", "deque", "set", "dict"):
+            if e.kind in ("list", "deque", "set", "dict", "numset"):
                 yield st, len(e.items)
             elif e.kind == "symlist":
                 yield st, e.length
@@ -1170,7 +1240,10 @@ def make_builtins(I):
         if isinstance(src, SymSetOf) or (isinstance(src, Ref) and st.get(src).kind == "symlist"):
             yield st, sorted_symbolic(I, st, src, k.get("reverse", False))
             return
-        items = I.iterate(a[0], st)
+        if isinstance(src, Ref) and st.get(src).kind == "numset":
+            items = list(st.get(src).items)  # sorted() does not depend on the iteration order of the set
+        else:
+            items = I.iterate(a[0], st)
         for st1, r in sorted_values(I, st, items, k.get("key"), k.get("reverse", False)):
             yield st1, (r if isinstance(r, Exc) else st1.alloc(ListE(r)))
 
